@@ -193,7 +193,7 @@ def match_iter(prog: Program) -> RuleResult:
                 got.append(("raise", "TypeError"))
             except NeedAtom as na:
                 raise AnalysisError(f"MATCH-ITER: Attribute._is_iterable_ consults {na.atom}, outside the typing facts tabled in the checker")
-        want = [isinstance(a, tm.Gen) and a.origin is not tm.UNION and bool(getattr(a.origin, "iterable", False)) for a in anns]
+        want = [isinstance(a, tm.Gen) and a.origin not in (tm.UNION, tm.UNIONTYPE) and bool(getattr(a.origin, "iterable", False)) for a in anns]
         r.check([g if isinstance(g, tuple) else bool(g) for g in got] == want, f"Attribute._is_iterable_#{cat}", site(f), ", ".join(map(repr, anns)), f"{got}",
                 f"for {cat} annotations {[repr(a) for a in anns]} the source says {got}, the annotations say {want}: a literal against a collection the compiler takes for a scalar "
                 f"becomes `attr == literal` instead of membership (tags='t1' never matches tags=['t1'])")
